@@ -24,11 +24,12 @@ mod sched_util;
 use sched_util::*;
 use similari::prelude::*;
 use similari::trackers::batch::PredictionBatchResult;
+use similari::trackers::tracker_api::TrackerAPI;
 use similari::trackers::sort::batch_api::SortPredictionBatchRequest;
 use similari::trackers::visual_sort::batch_api::{BatchVisualSort, VisualSortPredictionBatchRequest};
 use similari_verif_harness::*;
 use std::collections::BTreeMap;
-use std::sync::atomic::{AtomicBool, AtomicU64, Ordering};
+use std::sync::atomic::{AtomicBool, AtomicU64, AtomicUsize, Ordering};
 use std::sync::{mpsc, Arc, Mutex, OnceLock};
 use std::time::{Duration, Instant};
 
@@ -133,6 +134,10 @@ static HOLD_SITE: Mutex<Option<&'static str>> = Mutex::new(None);
 static RUNNING: AtomicBool = AtomicBool::new(false);
 /// own-area thresholds (use, collect) of the visual trackers of the current run, in 1/1000
 static OWN_AREA: Mutex<(u32, u32)> = Mutex::new((0, 0));
+/// lifecycle calls of the current run: (index of the batch after which the call is made, call)
+/// calls: clear | wasted | skip.<scene>.<n> | idle.<scene> | aw.<periodicity>
+static OPS: Mutex<Vec<(usize, String)>> = Mutex::new(Vec::new());
+static BATCHES_RETRIEVED: AtomicUsize = AtomicUsize::new(0);
 
 fn gates() -> &'static Arc<Gates> {
     GATES.get_or_init(Gates::new)
@@ -285,38 +290,139 @@ fn consume(res: &PredictionBatchResult, n: usize, out: &mut Vec<(u64, Vec<SortTr
     }
 }
 
-fn simple_results(kind: &str, hist: &[Batch]) -> BTreeMap<u64, Vec<Vec<SortTrack>>> {
+/// the tracker-API lifecycle calls that the batch and the simple trackers share
+trait LifeOps {
+    fn clear_w(&mut self);
+    fn wasted_recs(&mut self) -> Vec<SortTrack>;
+    fn skip(&mut self, scene: u64, n: usize);
+    fn idle(&mut self, scene: u64) -> Vec<SortTrack>;
+    fn set_aw(&mut self, p: usize);
+}
+
+macro_rules! life_ops {
+    ($t:ty) => {
+        impl LifeOps for $t {
+            fn clear_w(&mut self) {
+                self.clear_wasted()
+            }
+            fn wasted_recs(&mut self) -> Vec<SortTrack> {
+                self.wasted().iter().map(SortTrack::from).collect()
+            }
+            fn skip(&mut self, scene: u64, n: usize) {
+                self.skip_epochs_for_scene(scene, n)
+            }
+            fn idle(&mut self, scene: u64) -> Vec<SortTrack> {
+                self.idle_tracks_with_scene(scene)
+            }
+            fn set_aw(&mut self, p: usize) {
+                self.set_auto_waste(p)
+            }
+        }
+    };
+}
+life_ops!(Sort);
+life_ops!(VisualSort);
+life_ops!(BatchSort);
+life_ops!(BatchVisualSort);
+
+fn enc_grouped(mut recs: Vec<SortTrack>) -> String {
+    recs.sort_by_key(|r| (r.scene_id, r.id));
+    let mut groups: BTreeMap<u64, Vec<SortTrack>> = BTreeMap::new();
+    for r in recs {
+        groups.entry(r.scene_id).or_default().push(r);
+    }
+    let g: Vec<String> = groups.iter().map(|(s, rs)| enc_scene_res(*s, rs)).collect();
+    if g.is_empty() {
+        "-".into()
+    } else {
+        g.join("|")
+    }
+}
+
+/// applies one lifecycle call to a set of trackers (one batch tracker, or every per-scene simple tracker; `only`
+/// restricts scene-addressed calls to the tracker of that scene) and returns what it handed out
+fn apply_op(trackers: &mut [(Option<u64>, &mut dyn LifeOps)], op: &str) -> String {
+    let p: Vec<&str> = op.split('.').collect();
+    let mut out: Vec<SortTrack> = vec![];
+    for (scene, t) in trackers.iter_mut() {
+        match p[0] {
+            "clear" => t.clear_w(),
+            "wasted" => out.extend(t.wasted_recs()),
+            "aw" => t.set_aw(p[1].parse().unwrap()),
+            "skip" => {
+                let s: u64 = p[1].parse().unwrap();
+                if scene.is_none() || *scene == Some(s) {
+                    t.skip(s, p[2].parse().unwrap());
+                }
+            }
+            "idle" => {
+                let s: u64 = p[1].parse().unwrap();
+                if scene.is_none() || *scene == Some(s) {
+                    out.extend(t.idle(s));
+                }
+            }
+            _ => {}
+        }
+    }
+    enc_grouped(out)
+}
+
+enum SimpleTracker {
+    S(Sort),
+    V(VisualSort),
+}
+
+/// one simple tracker per scene, fed that scene's detection lists; lifecycle calls go to every tracker
+fn simple_results(kind: &str, hist: &[Batch], ops: &[(usize, String)]) -> (BTreeMap<u64, Vec<Vec<SortTrack>>>, Vec<String>) {
     let mut scenes: Vec<u64> = hist.iter().flat_map(|b| b.iter().map(|(s, _)| *s)).collect();
     scenes.sort();
     scenes.dedup();
-    let mut out = BTreeMap::new();
-    for s in scenes {
-        let mut calls = vec![];
-        if kind == "sort" {
-            let mut t = Sort::new(1, 1, 3, PositionalMetricType::IoU(0.3), 0.05, None, 1.0 / 20.0, 1.0 / 160.0);
-            for b in hist {
-                for (sid, ds) in b {
-                    if *sid == s {
-                        let boxes: Vec<(Universal2DBox, Option<i64>)> = ds.iter().map(|d| (ubox(d), d.custom)).collect();
-                        calls.push(t.predict_with_scene(s, &boxes));
-                    }
+    let mut trackers: BTreeMap<u64, SimpleTracker> = BTreeMap::new();
+    let mut out: BTreeMap<u64, Vec<Vec<SortTrack>>> = BTreeMap::new();
+    for s in &scenes {
+        trackers.insert(
+            *s,
+            if kind == "sort" {
+                SimpleTracker::S(Sort::new(1, 1, 3, PositionalMetricType::IoU(0.3), 0.05, None, 1.0 / 20.0, 1.0 / 160.0))
+            } else {
+                SimpleTracker::V(VisualSort::new(1, &visual_opts()))
+            },
+        );
+        out.insert(*s, vec![]);
+    }
+    let mut op_out = vec![];
+    for (bi, b) in hist.iter().enumerate() {
+        for (sid, ds) in b {
+            let r = match trackers.get_mut(sid).unwrap() {
+                SimpleTracker::S(t) => {
+                    let boxes: Vec<(Universal2DBox, Option<i64>)> = ds.iter().map(|d| (ubox(d), d.custom)).collect();
+                    t.predict_with_scene(*sid, &boxes)
                 }
-            }
-        } else {
-            let mut t = VisualSort::new(1, &visual_opts());
-            for b in hist {
-                for (sid, ds) in b {
-                    if *sid == s {
-                        let obs: Vec<VisualSortObservation> =
-                            ds.iter().map(|d| VisualSortObservation::new(d.feat.as_deref(), d.q, ubox(d), d.custom)).collect();
-                        calls.push(t.predict_with_scene(s, &obs));
-                    }
+                SimpleTracker::V(t) => {
+                    let obs: Vec<VisualSortObservation> =
+                        ds.iter().map(|d| VisualSortObservation::new(d.feat.as_deref(), d.q, ubox(d), d.custom)).collect();
+                    t.predict_with_scene(*sid, &obs)
                 }
+            };
+            out.get_mut(sid).unwrap().push(r);
+        }
+        for (pos, op) in ops {
+            if *pos == bi {
+                let mut refs: Vec<(Option<u64>, &mut dyn LifeOps)> = trackers
+                    .iter_mut()
+                    .map(|(s, t)| {
+                        let l: &mut dyn LifeOps = match t {
+                            SimpleTracker::S(x) => x,
+                            SimpleTracker::V(x) => x,
+                        };
+                        (Some(*s), l)
+                    })
+                    .collect();
+                op_out.push(apply_op(&mut refs, op));
             }
         }
-        out.insert(s, calls);
     }
-    out
+    (out, op_out)
 }
 
 fn enc_scene_res(sid: u64, recs: &[SortTrack]) -> String {
@@ -393,10 +499,29 @@ fn run_case(kind: &str, d: usize, v: usize, mode: &str, dseed: u64, hist: &[Batc
     HOOK_CALLS.store(0, Ordering::SeqCst);
     DELAY_SEED.store(dseed, Ordering::SeqCst);
     let (kind_s, mode_s, hist_c) = (kind.to_string(), mode.to_string(), hist.to_vec());
+    let ops: Vec<(usize, String)> = OPS.lock().unwrap().clone();
+    let ops_c = ops.clone();
     let outcome = with_watchdog(move || {
         let g = gates();
         let mut tr = new_batch_tracker(&kind_s, d, v);
         let mut results: Vec<Vec<(u64, Vec<SortTrack>)>> = vec![];
+        let mut op_out: Vec<String> = vec![];
+        BATCHES_RETRIEVED.store(0, Ordering::SeqCst);
+        // lifecycle calls are made between batches, after the results of the preceding batch have been retrieved
+        let mut do_ops = |tr: &mut BatchTracker, bi: usize, op_out: &mut Vec<String>| {
+            for (pos, op) in &ops_c {
+                if *pos == bi {
+                    while BATCHES_RETRIEVED.load(Ordering::SeqCst) < bi + 1 {
+                        std::thread::sleep(Duration::from_micros(50));
+                    }
+                    let l: &mut dyn LifeOps = match tr {
+                        BatchTracker::Sort(x) => x,
+                        BatchTracker::Visual(x) => x,
+                    };
+                    op_out.push(apply_op(&mut [(None, l)], op));
+                }
+            }
+        };
         if mode_s == "A" {
             // results of a batch are retrieved (by the submitting thread) before the next batch is submitted
             for (bi, b) in hist_c.iter().enumerate() {
@@ -406,6 +531,8 @@ fn run_case(kind: &str, d: usize, v: usize, mode: &str, dseed: u64, hist: &[Batc
                 let mut out = vec![];
                 consume(&res, res.batch_size(), &mut out, dseed);
                 results.push(out);
+                BATCHES_RETRIEVED.fetch_add(1, Ordering::SeqCst);
+                do_ops(&mut tr, bi, &mut op_out);
             }
         } else {
             // results are retrieved from another thread
@@ -416,6 +543,7 @@ fn run_case(kind: &str, d: usize, v: usize, mode: &str, dseed: u64, hist: &[Batc
                     let mut out = vec![];
                     consume(&res, res.batch_size(), &mut out, dseed);
                     all.push(out);
+                    BATCHES_RETRIEVED.fetch_add(1, Ordering::SeqCst);
                 }
                 all
             });
@@ -424,6 +552,7 @@ fn run_case(kind: &str, d: usize, v: usize, mode: &str, dseed: u64, hist: &[Batc
                 let res = submit(&mut tr, b);
                 g.log("predict_ret", bi as u64);
                 tx.send(res).unwrap();
+                do_ops(&mut tr, bi, &mut op_out);
             }
             drop(tx);
             results = consumer.join().unwrap();
@@ -431,11 +560,15 @@ fn run_case(kind: &str, d: usize, v: usize, mode: &str, dseed: u64, hist: &[Batc
         g.log("drop_begin", 0);
         drop(tr);
         g.log("drop_end", 0);
-        results
+        (results, op_out)
     });
     DELAY_SEED.store(0, Ordering::SeqCst);
+    let bops_s = match &outcome {
+        Ok((_, o)) => o.join("/"),
+        Err(_) => String::new(),
+    };
     let (status, batch_s) = match &outcome {
-        Ok(results) => (
+        Ok((results, _)) => (
             "ok",
             results.iter().map(|b| b.iter().map(|(s, r)| enc_scene_res(*s, r)).collect::<Vec<_>>().join("|")).collect::<Vec<_>>().join("/"),
         ),
@@ -443,18 +576,21 @@ fn run_case(kind: &str, d: usize, v: usize, mode: &str, dseed: u64, hist: &[Batc
     };
     let log = enc_log(&g.take_log());
     // the reference: one simple tracker per scene (no hooks relevant, no delays)
-    let simple = guarded(|| simple_results(kind, hist));
-    let simple_s = match simple {
-        Some(m) => m
-            .iter()
-            .map(|(s, calls)| calls.iter().map(|c| enc_scene_res(*s, c)).collect::<Vec<_>>().join("|"))
-            .collect::<Vec<_>>()
-            .join("/"),
-        None => "PANIC".into(),
+    let simple = guarded(|| simple_results(kind, hist, &ops));
+    let (simple_s, sops_s) = match simple {
+        Some((m, o)) => (
+            m.iter()
+                .map(|(s, calls)| calls.iter().map(|c| enc_scene_res(*s, c)).collect::<Vec<_>>().join("|"))
+                .collect::<Vec<_>>()
+                .join("/"),
+            o.join("/"),
+        ),
+        None => ("PANIC".into(), String::new()),
     };
+    let ops_s = ops.iter().map(|(p, o)| format!("{}:{}", p, o)).collect::<Vec<_>>().join(";");
     let (oau, oac) = *OWN_AREA.lock().unwrap();
     println!(
-        "run kind={} d={} v={} mode={} dseed={} oau={} oac={} hist={} batch={} simple={} log={} status={}",
+        "run kind={} d={} v={} mode={} dseed={} oau={} oac={} ops={} hist={} batch={} simple={} bops={} sops={} log={} status={}",
         kind,
         d,
         v,
@@ -462,9 +598,12 @@ fn run_case(kind: &str, d: usize, v: usize, mode: &str, dseed: u64, hist: &[Batc
         dseed,
         oau,
         oac,
+        ops_s,
         enc_hist(hist),
         batch_s,
         simple_s,
+        bops_s,
+        sops_s,
         log,
         status
     );
@@ -762,6 +901,47 @@ fn gen(seed: u64, n: usize, tier: &str) {
         }
     }
     *OWN_AREA.lock().unwrap() = (0, 0);
+    // lifecycle calls between batches (clear_wasted, wasted, skip_epochs_for_scene, idle_tracks_with_scene,
+    // set_auto_waste), applied identically to the batch tracker and to every per-scene simple tracker
+    let nlife = if thorough { 24 } else { 8 };
+    for i in 0..nlife {
+        let kind = if i % 3 == 2 { "visual" } else { "sort" };
+        let hist = gen_history(&mut rng, kind == "visual", 7, false);
+        let scenes: Vec<u64> = {
+            let mut v: Vec<u64> = hist.iter().flat_map(|b| b.iter().map(|(s, _)| *s)).collect();
+            v.sort();
+            v.dedup();
+            v
+        };
+        let mut ops: Vec<(usize, String)> = vec![];
+        for pos in 1..hist.len().saturating_sub(1) {
+            if !rng.chance(3, 5) {
+                continue;
+            }
+            let s = *rng.pick(&scenes);
+            let choice = rng.below(6);
+            let one = match choice {
+                0 => "clear".to_string(),
+                1 => "wasted".to_string(),
+                2 => format!("skip.{}.{}", s, 1 + rng.below(5)),
+                3 => format!("idle.{}", s),
+                4 => format!("aw.{}", rng.below(3)),
+                _ => {
+                    // expire, collect, clear: the live tracks must survive
+                    ops.push((pos, format!("skip.{}.{}", s, 4 + rng.below(3))));
+                    ops.push((pos, "wasted".to_string()));
+                    "clear".to_string()
+                }
+            };
+            ops.push((pos, one));
+        }
+        if ops.is_empty() {
+            ops.push((1, "clear".to_string()));
+        }
+        *OPS.lock().unwrap() = ops;
+        run_case(kind, 1 + (i % 4), 1 + ((i / 2) % 4), if i % 2 == 0 { "A" } else { "B" }, 1 + rng.below(1 << 40), &hist);
+    }
+    OPS.lock().unwrap().clear();
     // probes of the monitor
     for (i, site) in ["vote_job_begin", "vote_store_write", "vote_send"].iter().enumerate() {
         let kind = if i % 2 == 1 { "visual" } else { "sort" };
@@ -790,6 +970,18 @@ fn replay(path: &str) {
         }
         let hist = dec_hist(m.get("hist").map(|s| s.as_str()).unwrap_or(""));
         let kind = m.get("kind").cloned().unwrap_or("sort".into());
+        *OPS.lock().unwrap() = m
+            .get("ops")
+            .map(|x| {
+                x.split(';')
+                    .filter(|t| !t.is_empty())
+                    .map(|t| {
+                        let (p, o) = t.split_once(':').unwrap();
+                        (p.parse().unwrap(), o.to_string())
+                    })
+                    .collect()
+            })
+            .unwrap_or_default();
         *OWN_AREA.lock().unwrap() = (
             m.get("oau").map(|x| x.parse().unwrap()).unwrap_or(0),
             m.get("oac").map(|x| x.parse().unwrap()).unwrap_or(0),
